@@ -16,8 +16,8 @@ from specmc.sandbox import Sandbox
 ID = "C04"
 LEVEL = "model_checking"
 RULE = ("response tables: full product status x media type x schema kind for single-response operations, a pair matrix for "
-        "two responses (incl. default/2XX/invalid keys), component-response references; inputs: for every documented status "
-        "each RM-inst body, undocumented statuses x raise_on_unexpected_status x the four call variants; non-trivial = the "
+        "two responses (incl. default/2XX/invalid keys), component-response references, one reusable response under several statuses of an operation, references carrying their own description/summary; inputs: for every documented status "
+        "each RM-inst body, undocumented statuses (JSON, non-UTF-8 and empty bodies) x raise_on_unexpected_status x the four call variants; non-trivial = the "
         "operation was generated and at least one documented response was decoded")
 FLOOR = 0.5
 ASSUMPTIONS = ["httpx.Response decoding (json(), text, content) is trusted",
